@@ -1593,6 +1593,63 @@ void e_first_success()
     });
 }
 
+// functions that keep state INSIDE themselves (std::function around a mutable lambda: const-callable): first_success calls
+// the container's elements, so a second first_success over the same container sees each function at its next call
+void e_first_success_stateful()
+{
+  std::string const entry = "either::first_success/functions-with-inner-state";
+  if (!vf::entry_enabled(entry))
+    return;
+  vf::set_entry(entry);
+  using fun = std::function<ED()>;
+  auto const cs = containers(3, 3);
+  std::uint64_t idx = 0;
+  for (auto const &first_codes : cs)
+    for (auto const &second_codes : cs)
+    {
+      if (first_codes.size() != second_codes.size() || first_codes.empty())
+        continue;
+      if (!vf::mine(idx++))
+        continue;
+      if (!vf::begin_case("first call returns %s, second call returns %s", show_vec(first_codes).c_str(), show_vec(second_codes).c_str()))
+        continue;
+      vf::note_distinct(vf::hash_mix(vf::hash_str(entry), vf::hash_mix(vf::hash_str(show_vec(first_codes)), vf::hash_str(show_vec(second_codes)))));
+      std::vector<fun> fs;
+      for (std::size_t k = 0; k < first_codes.size(); ++k)
+        fs.push_back(fun{[a = first_codes[k], b = second_codes[k], calls = 0]() mutable { return dec<ED>(calls++ == 0 ? a : b); }});
+      // model: per function a call counter; a function is only called if no earlier one succeeded in that round
+      std::vector<int> calls(fs.size(), 0);
+      for (int round = 0; round < 2; ++round)
+      {
+        std::vector<int> want{-1};
+        for (std::size_t k = 0; k < fs.size(); ++k)
+        {
+          int const c = calls[k]++ == 0 ? first_codes[k] : second_codes[k];
+          if (md::ok(c))
+          {
+            want = {-2, md::sval(c)};
+            break;
+          }
+          want.push_back(md::fval(c));
+        }
+        auto const r = fcppt::either::first_success(fs);
+        std::vector<int> got;
+        if (r.has_success())
+          got = {-2, enc(r.get_success_unsafe())};
+        else
+        {
+          got = {-1};
+          for (int c : enc_vec(r.get_failure_unsafe()))
+            got.push_back(c);
+        }
+        VF_COUNT("either::first_success/stateful-rounds");
+        if (got != want)
+          vf::violation("either::first_success/functions-with-inner-state/value", "mismatch",
+                        std::string("round ") + std::to_string(round) + ": got " + show_vec(got) + " want " + show_vec(want));
+      }
+    }
+}
+
 // the script of results that _next returns one after the other; after the script: failure 0 and a BAD call
 struct script_next
 {
@@ -1930,6 +1987,7 @@ void vf_slice_1()
   e_apply();
   e_sequence();
   e_first_success();
+  e_first_success_stateful();
   e_loop();
   e_from_optional();
   e_try_call();
